@@ -153,11 +153,12 @@ def encodeAlerts (m : AlertsMsg) : List Byte :=
   [m.total, m.start, m.alerts.length.toUInt8] ++ m.alerts.flatMap encodeAlert
 
 /-- a date the controller can express: a real calendar date from 2000 on whose timestamp fits
-32 bits and is not the "open" marker -/
-def wfDT (t : DT) : Bool := decide (2000 ≤ t.y) && validDT t && decide (tsOf t < maxU32)
+32 bits -/
+def wfDT (t : DT) : Bool := decide (2000 ≤ t.y) && validDT t && decide (tsOf t ≤ maxU32)
 
+/-- an end date must moreover not be the date whose timestamp is the "open" marker -/
 def wfAlert (a : AlertRec) : Bool :=
-  wfDT a.from_ && (match a.to with | none => true | some t => wfDT t)
+  wfDT a.from_ && (match a.to with | none => true | some t => wfDT t && decide (tsOf t ≠ maxU32))
 
 def wfAlerts (m : AlertsMsg) : Bool := decide (m.alerts.length < 256) && m.alerts.all wfAlert
 
@@ -204,25 +205,41 @@ def decodeAlerts : List Byte → Except Err (AlertsVal × List Byte)
 
 /-! ### product info / UID -/
 
-/-- `_crc16_byte` -/
-def crc16Byte (crc : Nat) (b : Byte) : Nat :=
-  (List.range 8).foldl (fun c _ => if c % 2 = 1 then (c / 2) ^^^ 0xA001 else c / 2) (crc ^^^ b.toNat)
+/-- one shift step of `_crc16_byte`: `(crc >> 1) ^ POLYNOMIAL if crc & 1 else crc >> 1` -/
+def crcShift (c : Nat) : Nat := if c % 2 = 1 then (c / 2) ^^^ Gen.uidPolynomial else c / 2
 
-def crc16 (bs : List Byte) : Nat := bs.foldl crc16Byte 0xA3A3
+/-- eight shift steps -/
+def crcShift8 (c : Nat) : Nat :=
+  crcShift (crcShift (crcShift (crcShift (crcShift (crcShift (crcShift (crcShift c)))))))
 
-def base5Key : List Char := "0123456789ABCDEFGHIJKLMNZPQRSTUV".toList
+/-- `_crc16_byte`: `crc ^= byte`, then eight shift steps -/
+def crc16Byte (crc : Nat) (b : Byte) : Nat := crcShift8 (crc ^^^ b.toNat)
+
+/-- `_crc16` before `to_bytes`: `reduce(_crc16_byte, buffer, CRC)` -/
+def crc16 (bs : List Byte) : Nat := bs.foldl crc16Byte Gen.uidCrc
+
+/-- BASE5_KEY -/
+def base5Key : List Char := Gen.base5Key.toList
+
+def keyChar (d : Nat) : Char := base5Key.getD d '?'
 
 /-- `_base5`: base-32 digits, most significant first, nothing for 0 (`fuel` bounds the number
-of digits; `uidString` supplies enough for the bit length of its argument) -/
+of digits; `uidChars` supplies enough for the bit length of its argument) -/
 def base5 : Nat → Nat → List Char → List Char
   | 0, _, acc => acc
   | fuel + 1, n, acc =>
-    if n = 0 then acc else base5 fuel (n / 32) (base5Key.getD (n % 32) '?' :: acc)
+    if n = 0 then acc else base5 fuel (n / 32) (keyChar (n % 32) :: acc)
 
-/-- `decode_uid`: base-32 text of the UID bytes followed by their CRC-16 (little endian), read
-as one little-endian number -/
-def uidString (uid : List Byte) : String :=
-  String.ofList (base5 (8 * (uid.length + 2) / 5 + 1) (decodeLE (uid ++ encodeLE (crc16 uid) 2)) [])
+/-- the number `decode_uid` writes out: UID bytes followed by their CRC-16 (2 bytes, little
+endian), read as one little-endian integer -/
+def uidNumber (uid : List Byte) : Nat := decodeLE (uid ++ encodeLE (crc16 uid) 2)
+
+def uidFuel (uid : List Byte) : Nat := 8 * (uid.length + 2) / 5 + 1
+
+def uidChars (uid : List Byte) : List Char := base5 (uidFuel uid) (uidNumber uid) []
+
+/-- `decode_uid` -/
+def uidString (uid : List Byte) : String := String.ofList (uidChars uid)
 
 def isLetter (b : Byte) : Bool := (65 ≤ b && b ≤ 90) || (97 ≤ b && b ≤ 122)
 def isDigit (b : Byte) : Bool := 48 ≤ b && b ≤ 57
